@@ -318,6 +318,11 @@ fn classify(
             Item::NoProgress => push(labels, Label::NoProgress),
             _ => push(labels, Label::ActionSequence),
         }
+        if !lexer_has_item {
+            // the lexer ran an action the reference never runs: by C10's own words an action run
+            // for a candidate that was abandoned (or run a second time for one match)
+            push(labels, Label::ActionSequence);
+        }
         if eof_involved {
             push(labels, Label::EofProtocol);
         }
@@ -442,6 +447,9 @@ impl<'a> Checker<'a> {
                 }
                 Op::Drop(_) => {
                     probes.hit("drop");
+                }
+                Op::Stranger => {
+                    probes.hit("stranger_step");
                 }
                 Op::Next(r) => {
                     let got = &obs.calls[cursor];
